@@ -28,7 +28,8 @@ RULE = ('one case = one Configurator program (security policy absent / truthy ob
         'as an equal non-identical str; permission=None passed explicitly to add_view / add_static_view; a policy object whose '
         '`permits` attribute resolves to another callable until the application is built; request_method= predicates in several '
         'spellings of one method set (tuple order, implied HEAD), overrides of a later commit re-spelling them; GET/POST/HEAD requests; '
-        'accept= views (text/html, application/json) with Accept headers in several spellings, also as warm traffic before an override) '
+        'accept= views (text/html, application/json) with Accept headers in several spellings, also as warm traffic before an override; '
+        'a resource that is an exception instance, reaching the normal half of add_view(context=<exception class>)) '
         'x a random decision table x 8-12 requests through Router.__call__; observation = ordered log of '
         'policy.permits calls (answers of several truthy/falsy kinds), decorator entries, view-body executions, the exception the '
         'main handler raised, and the final response or propagated exception. non-trivial = a policy is declared, at least one '
